@@ -81,6 +81,35 @@ func run(cfg lib.Cfg) error {
 		judge(sc, "corpus-cross-partition-switch")
 	}
 
+	// DEEP reorgs: one reorg orphans 12-41 RECORDED POSITIONS (batch 1 and small batches, so
+	// that positions ~ blocks); the unwinding step walks back one position per loop iteration
+	// inside one transaction.  Whatever the depth (within the retained position history), the
+	// table must converge to the replacing chain.  The last one through the real client.
+	for v, c := range []struct {
+		shape                   string
+		batch, conc, head, fork int
+		real                    bool
+	}{
+		{"log", 1, 1, 13, 2, false},   // positions 1..13, fork 2: 12 positions orphaned
+		{"tx", 2, 2, 28, 4, false},    // positions 2,4..28; fork 4 (inside the batch 3..4): 13 positions
+		{"trace", 1, 1, 42, 2, false}, // 41 positions
+		{"log", 3, 2, 39, 2, false},   // positions 3,6..39: all 13 orphaned, nothing remains
+		{"log", 1, 1, 14, 2, true},    // real client: 13 positions
+	} {
+		sc := world(fmt.Sprintf("corpus-deep-reorg-%d-b%dc%d-head%d-fork%d", v, c.batch, c.conc, c.head, c.fork), []string{c.shape}, c.batch, c.conc, c.head, uint64(101+v))
+		sc.Real = c.real
+		if c.shape == "trace" {
+			sc.Gen.AlwaysTrace = true
+		}
+		if c.head > 20 {
+			sc.Gen.MaxTxs, sc.Gen.MaxLogs, sc.Gen.EmptyProb = 1, 2, 40 // long chains: keep the tables small
+		}
+		newLen := c.head - c.fork + 2
+		sc.Acts = append(rounds(1, (c.head+c.batch-1)/c.batch), ts.Act{Do: "reorg", Fork: uint64(c.fork), Len: newLen})
+		sc.Acts = append(sc.Acts, rounds(1, (newLen+c.batch-1)/c.batch+4)...)
+		judge(sc, "corpus-deep-reorg")
+	}
+
 	// fresh start WITHOUT a configured start: the first recorded position (one block, or a
 	// first batch of several blocks when the head moves between the two head queries of the
 	// first step) is the ONLY one when the reorg orphans it: the unwind finds no remaining
@@ -307,6 +336,11 @@ func run(cfg lib.Cfg) error {
 		}
 		batch, conc := r.Range(1, 6), r.Range(1, 4)
 		head := r.Range(3, 12)
+		deep := i%10 == 9 // one reorg that orphans many recorded positions
+		if deep {
+			batch, nig, shapes = r.Range(1, 2), 1, shapes[:1]
+			head = batch * r.Range(12, 20)
+		}
 		sc := world(fmt.Sprintf("reorg-%d", i), shapes, batch, conc, head, r.U64()%1_000_000)
 		h := head
 		pos := 0 // rough upper bound of the highest position
@@ -316,6 +350,15 @@ func run(cfg lib.Cfg) error {
 			kind = "random-repeated-reorg"
 		}
 		rebatch := r.Intn(3) == 0
+		if deep {
+			// everything is indexed, then blocks from a low fork point on are replaced
+			sc.Gen.MaxTxs, sc.Gen.MaxLogs = 1, 2
+			sc.Acts = append(sc.Acts, rounds(1, head/batch)...)
+			fork := r.Range(1, max(1, head-12*batch))
+			nl := head - fork + 1 + r.Range(-2, 3)
+			sc.Acts = append(sc.Acts, ts.Act{Do: "reorg", Fork: uint64(fork), Len: nl})
+			pos, h, nre, rebatch, kind = head, fork-1+nl, 0, false, "random-deep-reorg"
+		}
 		for k := 0; k < nre; k++ {
 			rd := r.Range(0, 3)
 			sc.Acts = append(sc.Acts, rounds(nig, rd)...)
